@@ -239,6 +239,9 @@ func (r *Run) Finish(level string, rule string) {
 	if _, ok := cov["distinct_nontrivial"]; !ok {
 		cov["distinct_nontrivial"] = len(r.outcomes)
 	}
+	if r.Assume == nil {
+		r.Assume = []string{}
+	}
 	ev := map[string]interface{}{
 		"property_id": r.ID,
 		"tier":        r.Tier,
